@@ -303,7 +303,8 @@ int main() {
         for (size_t k = 0; k < r->tasks.size(); ++k) {
             auto &t = r->tasks[k];
             if (t.running) r->complain("C08: task " + std::to_string(k) + " is still running after stop() returned");
-            if (t.deleted != 1) r->complain("C07: task " + std::to_string(k) + " was destroyed " + std::to_string(t.deleted) + " times");
+            if (t.deleted == 0) r->complain("C07: C08: task " + std::to_string(k) + " was never destroyed although stop() has returned");
+            else if (t.deleted != 1) r->complain("C07: task " + std::to_string(k) + " was destroyed " + std::to_string(t.deleted) + " times");
             if (t.begun != t.ended) r->complain("C07: task " + std::to_string(k) + " began but did not end");
         }
         if (r->maxw == 1) {
